@@ -23,7 +23,7 @@ def cli_case(draw):
     spec = draw(D.dataset_spec(max_loci=3, max_snvs=4, max_samples=3, max_reads=25, mapq_values=(60,), flags=False, min_reads=1))
     ploidy = {s: draw(st.sampled_from([2, 4, 3, 5])) for s in spec["samples"]}
     inbreeding = {s: draw(st.sampled_from([0.0, 0.0, 0.1, 0.5])) for s in spec["samples"]}
-    reports = [["AFP", "AOP", "ACP"], ["GP", "GL", "AFP", "AOP", "ACP"]] + list(draw(st.permutations(REPORTS)))[:2]
+    reports = [["AFP", "AOP", "ACP"], ["GP", "GL", "AFP", "AOP", "ACP", "AFPRIOR"]] + list(draw(st.permutations(REPORTS)))[:2]
     reports = list(draw(st.permutations(reports)))
     return {"kind": "cli", "spec": spec, "ploidy": ploidy, "inbreeding": inbreeding, "reports": reports, "seed": draw(st.integers(1, 10000)),
             "threshold": draw(st.sampled_from([0.05, 0.2])), "prior": draw(st.booleans())}
@@ -121,6 +121,29 @@ def check_cli(ctx, case):
                                         if a < len(vals) and vals[a] is not None and abs(vals[a] - exp) > band * scale:
                                             problems.append(Problem("cli:%s_vs_GP" % key, "%s:%d sample %s: %s[%d]=%r but the printed GP implies %r (--report %s)" % (r["CHROM"], r["POS"], s, key, a, vals[a], round(exp, 4), rep)))
                                             return problems
+                            # true posterior: GP is proportional to 10**GL times the prior of the genotype under the reported AFPRIOR
+                            pri = V.floats(r["INFO"].get("AFPRIOR", ".")) if isinstance(r["INFO"].get("AFPRIOR"), str) else []
+                            if "GL" in d and d["GL"] != "." and len(gp) <= 4000 and len(pri) == n_all and all(x is not None for x in pri) and sum(pri) > 0:
+                                gl = V.floats(d["GL"])
+                                if not case["prior"]:
+                                    nz = [x > 0 for x in pri]
+                                    pri = [1.0 / sum(nz) if z else 0.0 for z in nz]  # default prior: flat over the alleles that are not masked
+                                else:
+                                    pri = [x / sum(pri) for x in pri]
+                                F = case["inbreeding"][s]
+                                w = []
+                                gl_max = max([x for x in gl if x is not None] or [0.0])
+                                for g, l in zip(gens, gl):
+                                    pg = R.genotype_prior(tuple(g), pri, F)
+                                    w.append(0.0 if (l is None or pg <= 0) else pg * 10.0 ** (l - gl_max))
+                                if sum(w) > 0:
+                                    exp_gp = [x / sum(w) for x in w]
+                                    tol = (0.004 if not case["prior"] else 0.03) + 0.0025 * case["ploidy"][s]
+                                    worst = max(range(len(gp)), key=lambda i: abs((gp[i] or 0.0) - exp_gp[i]))
+                                    ctx.count("cli:GP_vs_GL_times_prior_checked")
+                                    if abs((gp[worst] or 0.0) - exp_gp[worst]) > tol:
+                                        problems.append(Problem("cli:GP_not_posterior", "%s:%d sample %s: GP[%d]=%r for genotype %s but likelihood x prior (AFPRIOR %s, F=%s) normalises to %.4f" % (r["CHROM"], r["POS"], s, worst, gp[worst], list(gens[worst]), r["INFO"].get("AFPRIOR"), F, exp_gp[worst])))
+                                        return problems
                             gt = [int(a) for a in d["GT"].split("/") if a != "."]
                             if len(gt) == case["ploidy"][s]:
                                 idx = R.genotype_rank(gt)
